@@ -47,7 +47,9 @@ def run(rep, tier, seed, replay=None):
         'determine_used_cross_size / the absolute pass) are proved in Gallina on Model/FlexAlg.v flex_alg = all of compute_flexbox_layout as '
         'a resumption (C12_flex_resolutions_blind, C12_flex_algorithm_box_sizing_blind: premise-free) -- tied event by event and bit for bit '
         'by `vh flexalg cases` (re-run here) -- and composed with block containers and leaves in the engine Model/BlockFlexK.v '
-        '(C12_blockflex_engine_instance; hand composition: dispatch no children -> leaf / display:flex -> flex / else block, exact-key memo); '
+        '(C12_blockflex_engine_instance_partial; dispatch no children -> leaf / display:flex -> flex / else block, exact-key memo; no runner '
+        'of its own, but proved equal to the complete engine real_memo that `vh taffytree` runs on every tree without grid containers: '
+        'Props/C04.v C04_blockflex_engine_is_taffy_engine, restated here as C12_taffy_engine_rewritten_layouts_partial); '
         'the per-node rewrite of the engine theorem leaves flex_basis alone (class: flex_basis not a length), the algorithm theorem covers '
         'length flex_basis rewritten along the container\'s main axis',
         'the block sites (compute_block_layout / compute_inner / generate_item_list) are proved in Gallina on the hand models Model/Block.v '
